@@ -184,6 +184,9 @@ func oracleC05(c *serveCase, extra []string, res *serveResult) (string, []string
 // C10: ill-formed arguments are rejected without side effects
 // ---------------------------------------------------------------------------------------------------
 
+var optionForms = map[string]bool{"EXPIRE": true, "EXPIREAT": true, "SCAN": true, "SET": true, "LPOP": true, "RPOP": true, "ZADD": true,
+	"ZRANGE": true, "ZRANGEBYSCORE": true, "ZREVRANGE": true, "ZREVRANGEBYSCORE": true, "PING": true}
+
 func genC10(tier string, seed uint64, emit func(string)) {
 	r := NewRng(seed)
 	rounds := 2
@@ -196,9 +199,24 @@ func genC10(tier string, seed uint64, emit func(string)) {
 			if cmd == "PING" || cmd == "AUTH" {
 				continue
 			}
-			t := genRequest(r, cmd)
-			for _, m := range illFormed(t) {
-				emit(serveLine("-", [][]byte{append(requestBytes(m.argv, m.nulls), ping...)}, genScript(r, 2, false), floatTable(m.argv), "class "+m.class+" "+cmd))
+			// commands with optional clauses are drawn several times so that every clause (LIMIT offset count, COUNT n,
+			// MATCH p, EX n ...) is present in some request and its positions get mutated too
+			draws := 1
+			if optionForms[cmd] {
+				draws = 8
+			}
+			seen := map[string]bool{}
+			for d := 0; d < draws; d++ {
+				t := genRequest(r, cmd)
+				for _, m := range illFormed(t) {
+					line := serveLine("-", [][]byte{append(requestBytes(m.argv, m.nulls), ping...)}, genScript(r, 2, false), floatTable(m.argv), "class "+m.class+" "+cmd)
+					key := m.class + "|" + string(requestBytes(m.argv, m.nulls))
+					if seen[key] {
+						continue
+					}
+					seen[key] = true
+					emit(line)
+				}
 			}
 		}
 		for _, m := range setExclusive(r) {
